@@ -71,8 +71,8 @@ CHECKS = [
           'for all garbage bytes, that the stored height is between the last completed full flush and the block in '
           'progress, that every observable equals the reference at that height, and that resuming reaches the reference '
           'of the whole chain.  Flush schedules enumerated; second crash during recovery in thorough.  BATCHCFG: a '
-          'concrete companion opens the real LevelDB wrapper and checks the batch options the atomicity assumption '
-          'rests on (transaction=True, sync where the code asks for it).',
+          'concrete companion (not a solver verdict) opens the real LevelDB storage class and checks what the atomicity '
+          'assumption rests on: an abandoned batch leaves nothing, a completed one survives a reopen.',
   'note': 'Assumes atomic LevelDB batches/puts and that completed file writes survive process death (no power loss). '
           'Trusted: as C01; crash counterexamples are replayed on real LevelDB/files with the same operation counter.',
   'design_ref': 'DESIGN.md section 4, C04'},
